@@ -240,6 +240,11 @@ def o3(tier):
     return ob.done(cases=len(paths))
 
 
+def o4(tier):
+    from props import memobs
+    return memobs.invalidation(tier, 'O4', 'O4')
+
+
 def run(tier, seed, only=None):
-    obs = [('O1', o1), ('O2', o2), ('O3', o3)]
+    obs = [('O1', o1), ('O2', o2), ('O3', o3), ('O4', o4)]
     return [f(tier) for k, f in obs if not only or k in only]
